@@ -746,6 +746,19 @@ func (w *bWorld) clientStep(d *bDID) {
 	if d.Create == nil {
 		d.Hash = hash
 		d.Upd, d.Rec = w.newKey(d), w.newKey(d)
+
+		// one controller may hold several DIDs under one recovery key: their recovers / deactivates then reveal the same key
+		if k.Draw(4, "did.sharedrec") == 0 {
+			for _, o := range w.dids {
+				if o != d && o.Rec != nil && o.KeyType == d.KeyType && !o.Dead {
+					d.Rec = o.Rec
+					k.Count("probe:recovery-key-shared-between-dids")
+
+					break
+				}
+			}
+		}
+
 		pd := w.genPatches(true)
 		patches, _ := workload.ToPatches(pd)
 		var origin interface{} = originValue(w.mark)
